@@ -1,0 +1,211 @@
+//! Verification hooks for `peer_tracker` (compiled only with `--cfg eigerco_lumina_verif`).
+//!
+//! Strictly additive: a thin public wrapper around the crate-private [`PeerTracker`] that exposes
+//! only public types, plus a way to age the `disconnected_at` instants (expiry is measured on a
+//! std `Instant`, which cannot be advanced from outside).
+
+use super::*;
+use crate::events::{EventChannel, EventSubscriber};
+
+/// Highest connection id (exclusive; the harness uses ids below 3) that [`PeerTrackerSim::peers`] probes for.
+const PROBED_CONNECTION_IDS: usize = 16;
+
+/// Snapshot of one tracked peer, in public types.
+#[derive(Debug, Clone, PartialEq, Eq)]
+pub struct VerifPeerState {
+    /// Peer id.
+    pub id: PeerId,
+    /// Number of live connections.
+    pub num_connections: usize,
+    /// The live connection ids below 16 (sorted).
+    pub connections: Vec<usize>,
+    /// Protection tags (sorted).
+    pub protected: Vec<u32>,
+    /// Trusted flag.
+    pub trusted: bool,
+    /// Archival flag.
+    pub archival: bool,
+    /// `Unknown`, `Bridge`, `Full` or `Light`.
+    pub node_kind: String,
+    /// `node_kind.is_full()`.
+    pub full: bool,
+    /// How long ago the peer was disconnected (`None` when connected).
+    pub disconnected_for: Option<Duration>,
+}
+
+impl PeerTracker {
+    /// Move every stored disconnect instant `d` into the past (saturating at the earliest
+    /// representable instant).
+    pub(crate) fn verif_age_disconnected(&mut self, d: Duration) {
+        for peer in self.peers.values_mut() {
+            if let Some(tm) = peer.disconnected_at.as_mut()
+                && let Some(older) = tm.checked_sub(d)
+            {
+                *tm = older;
+            }
+        }
+    }
+}
+
+/// The real [`PeerTracker`] behind a public facade.
+pub struct PeerTrackerSim {
+    tracker: PeerTracker,
+    watcher: watch::Receiver<PeerTrackerInfo>,
+    _events: EventChannel,
+    _subscriber: EventSubscriber,
+}
+
+impl Default for PeerTrackerSim {
+    fn default() -> Self {
+        Self::new()
+    }
+}
+
+impl PeerTrackerSim {
+    /// Construct an empty tracker, exactly as the tests at the bottom of `peer_tracker.rs` do.
+    pub fn new() -> Self {
+        let events = EventChannel::new();
+        let subscriber = events.subscribe();
+        let tracker = PeerTracker::new(events.publisher());
+        let watcher = tracker.info_watcher();
+        PeerTrackerSim {
+            tracker,
+            watcher,
+            _events: events,
+            _subscriber: subscriber,
+        }
+    }
+
+    /// `PeerTracker::add_peer_id`
+    pub fn add_peer_id(&mut self, peer: &PeerId) -> bool {
+        self.tracker.add_peer_id(peer)
+    }
+
+    /// `PeerTracker::add_connection`
+    pub fn add_connection(&mut self, peer: &PeerId, connection: usize) {
+        self.tracker
+            .add_connection(peer, ConnectionId::new_unchecked(connection))
+    }
+
+    /// `PeerTracker::remove_connection`
+    pub fn remove_connection(&mut self, peer: &PeerId, connection: usize) {
+        self.tracker
+            .remove_connection(peer, ConnectionId::new_unchecked(connection))
+    }
+
+    /// `PeerTracker::set_trusted`
+    pub fn set_trusted(&mut self, peer: &PeerId, trusted: bool) {
+        self.tracker.set_trusted(peer, trusted)
+    }
+
+    /// `PeerTracker::protect`
+    pub fn protect(&mut self, peer: &PeerId, tag: u32) -> bool {
+        self.tracker.protect(peer, tag)
+    }
+
+    /// `PeerTracker::unprotect`
+    pub fn unprotect(&mut self, peer: &PeerId, tag: u32) -> bool {
+        self.tracker.unprotect(peer, tag)
+    }
+
+    /// `PeerTracker::mark_as_archival`
+    pub fn mark_as_archival(&mut self, peer: &PeerId) {
+        self.tracker.mark_as_archival(peer)
+    }
+
+    /// `PeerTracker::on_agent_version`
+    pub fn on_agent_version(&mut self, peer: &PeerId, agent_version: &str) {
+        self.tracker.on_agent_version(peer, agent_version)
+    }
+
+    /// `PeerTracker::gc`
+    pub fn gc(&mut self) {
+        self.tracker.gc()
+    }
+
+    /// Age all disconnect instants by `d`.
+    pub fn verif_age_disconnected(&mut self, d: Duration) {
+        self.tracker.verif_age_disconnected(d)
+    }
+
+    /// `PeerTracker::info`
+    pub fn info(&self) -> PeerTrackerInfo {
+        self.tracker.info()
+    }
+
+    /// `PeerTracker::protected_len`
+    pub fn protected_len(&self, tag: u32) -> usize {
+        self.tracker.protected_len(tag)
+    }
+
+    /// `PeerTracker::is_connected`
+    pub fn is_connected(&self, peer: &PeerId) -> bool {
+        self.tracker.is_connected(peer)
+    }
+
+    /// `PeerTracker::is_protected`
+    pub fn is_protected(&self, peer: &PeerId) -> bool {
+        self.tracker.is_protected(peer)
+    }
+
+    /// `PeerTracker::is_protected_with_tag`
+    pub fn is_protected_with_tag(&self, peer: &PeerId, tag: u32) -> bool {
+        self.tracker.is_protected_with_tag(peer, tag)
+    }
+
+    /// Current value seen through a receiver obtained from `info_watcher()` at construction.
+    pub fn watch_value(&self) -> PeerTrackerInfo {
+        self.watcher.borrow().to_owned()
+    }
+
+    /// Whether that receiver has an unseen change; marks it seen.
+    pub fn watch_take_changed(&mut self) -> bool {
+        let changed = self.watcher.has_changed().unwrap_or(false);
+        if changed {
+            self.watcher.borrow_and_update();
+        }
+        changed
+    }
+
+    /// Value seen through a fresh `info_watcher()` receiver.
+    pub fn fresh_watch_value(&self) -> PeerTrackerInfo {
+        self.tracker.info_watcher().borrow().to_owned()
+    }
+
+    /// All `(peer, connection)` pairs from `PeerTracker::all_connections`.
+    pub fn all_connections_len(&self) -> usize {
+        self.tracker.all_connections().count()
+    }
+
+    /// Every tracked peer with its state (sorted by peer id bytes).
+    pub fn peers(&self) -> Vec<VerifPeerState> {
+        let mut out: Vec<VerifPeerState> = self
+            .tracker
+            .peers()
+            .map(|p| {
+                let mut connections: Vec<usize> = (0..PROBED_CONNECTION_IDS)
+                    .filter(|c| {
+                        p.connections
+                            .contains_key(&ConnectionId::new_unchecked(*c))
+                    })
+                    .collect();
+                connections.sort_unstable();
+                let mut protected: Vec<u32> = p.protected.iter().copied().collect();
+                protected.sort_unstable();
+                VerifPeerState {
+                    id: *p.id(),
+                    num_connections: p.connections.len(),
+                    connections,
+                    protected,
+                    trusted: p.is_trusted(),
+                    archival: p.is_archival(),
+                    node_kind: format!("{:?}", p.node_kind()),
+                    full: p.is_full(),
+                    disconnected_for: p.disconnected_at.map(|tm| tm.elapsed()),
+                }
+            })
+            .collect();
+        out.sort_by_key(|p| p.id.to_bytes());
+        out
+    }
+}
